@@ -707,6 +707,78 @@ def end_to_end(ctx):
         e2e_rekey_tamper(ctx, kex, kind, algo, f, rng)
 
 
+def connect_level(ctx):
+    """the real `Transport.connect` against a real server, over ALL combinations of its options: hostkey not given /
+    the server's key / another key of the same type / a key of another type, with and without pkey, password,
+    gss_auth, gss_kex.  The auth_* methods of the client transport are replaced by recorders, so what `connect` DOES
+    after the key exchange is observed exactly: raises, or calls one auth method, or returns."""
+    import itertools
+    import threading
+    import paramiko
+    from cryptography.hazmat.primitives.asymmetric import ec
+
+    L.quiet_logging()
+    server_keys = {"ecdsa": L.host_key("ecdsa256"), "rsa": L.host_key("rsa")}
+    others = {"ecdsa": paramiko.ECDSAKey.generate(curve=ec.SECP256R1()), "rsa": None}
+    reqs, impls, cases = [], [], []
+    for skind, skey in server_keys.items():
+        pins = [("none", None), ("same", skey), ("other-type", L.host_key("ed25519"))]
+        if others[skind] is not None:
+            pins.append(("other-same-type", others[skind]))
+        elif ctx.thorough:
+            pins.append(("other-same-type", paramiko.RSAKey.generate(2048)))
+        for (plabel, pin), (pk, pw, ga, gk) in itertools.product(pins, itertools.product([0, 1], repeat=4)):
+            e = L.E2E("c25519", skey)
+            called = []
+            for name in ("auth_gssapi_with_mic", "auth_gssapi_keyex", "auth_publickey", "auth_password"):
+                setattr(e.tc, name, lambda *a, _n=name, **k: called.append(_n))
+            case = {"server_key": skind, "hostkey_option": plabel, "pkey": bool(pk), "password": bool(pw),
+                    "gss_auth": bool(ga), "gss_kex": bool(gk)}
+            try:
+                e.ts.start_server(event=threading.Event(), server=paramiko.ServerInterface())
+                raised = None
+                try:
+                    e.tc.connect(hostkey=pin, username="alice", password="pw" if pw else None,
+                                 pkey=L.host_key("ed25519") if pk else None, gss_host="host.example",
+                                 gss_auth=bool(ga), gss_kex=bool(gk), gss_trust_dns=False)
+                except Exception as ex:
+                    raised = ex
+                start_ok = e.tc.host_key is not None and (raised is None or "Bad host key" in str(raised) or bool(called))
+                shown = e.tc.host_key
+                kinds = {"auth_gssapi_with_mic": "gssmic", "auth_gssapi_keyex": "gsskeyex",
+                         "auth_publickey": "publickey", "auth_password": "password"}
+                if raised is not None:
+                    impl = "raised" + ("+" + "+".join(kinds[c] for c in called) if called else "")
+                elif called:
+                    impl = "+".join("auth:" + kinds[c] for c in called)
+                else:
+                    impl = "none"
+                differs = pin is not None and shown is not None and (
+                    shown.get_name() != pin.get_name() or shown.asbytes() != pin.asbytes())
+                ctx.case(("connect", skind, plabel, pk, pw, ga, gk), plabel not in ("none", "same"))
+                ctx.dist("connect:%s:%s" % (plabel, impl.split(":")[0].split("+")[0]))
+                # ---- oracle: a pinned key that differs from the key shown => raises, nothing else happens
+                if differs and not gk and (raised is None or called):
+                    ctx.fail("pinned-host-key-not-enforced", case,
+                             "connect(hostkey=<other key>) %s; auth calls %r; server showed %s"
+                             % ("returned normally" if raised is None else "raised %r" % raised, called, shown.get_name()))
+                if pin is not None and not differs and start_ok and raised is not None and not called:
+                    ctx.disagree("connect-refused-the-pinned-key", case, "accepted", repr(raised))
+                srv = shown if shown is not None else skey
+                reqs.append("conn %s %s:%s %d %d%d%d%d" % (
+                    "none" if pin is None else hx(pin.get_name().encode()) + ":" + hx(pin.asbytes()),
+                    hx(srv.get_name().encode()), hx(srv.asbytes()), 1 if start_ok else 0, pk, pw, ga, gk))
+                impls.append(impl)
+                cases.append(case)
+            finally:
+                e.close()
+    model = ctx.driver("C06", reqs)
+    if model is not None:
+        for r, m, i, c in zip(reqs, model, impls, cases):
+            if m != i:
+                ctx.disagree("Transport.connect", dict(c, request=r[:200]), m, i)
+
+
 def run(ctx):
     ctx.rule = ("engine level: for each of the 10 engine classes (+ the group code over modulus 23) honest client/server "
                 "pairs with random exponents/scalars, versions, KEXINITs, host keys (gex: new and old style, 1024-2048 "
@@ -715,7 +787,9 @@ def run(ctx):
                 "every kex with a host-key algorithm (thorough: all 10 x 7), 1-5 rekeys initiated by either side, and "
                 "single-field MITM edits (host key flipped / swapped, f or Q_S, signature, client value, gex p, gex g, Q_S / Q_C "
                 "re-encoded as the same point in compressed form), the same edits (signature, value, replayed first signature) on a RE-exchange with the same host key. "
-                "distinct = distinct (engine, role, packets) / (kex, algorithm, edit); non-trivial = a complete "
+                "Transport.connect over all 64 option combinations x 2 server key types (hostkey absent / same / "
+                "other of the same type / other type; pkey, password, gss_auth, gss_kex) with recording auth_* "
+                "methods. distinct = distinct (engine, role, packets) / (kex, algorithm, edit); non-trivial = a complete "
                 "exchange or an altered one")
     ctx.trust("cryptography (RSA/ECDSA/ECDH/X25519), nacl (Ed25519), hashlib",
               "exponents drawn by _generate_x / private keys drawn by the library are inputs of the model")
@@ -726,6 +800,7 @@ def run(ctx):
     engine_level(ctx)
     real_point_encoding_oracle(ctx)
     set_k_h_level(ctx)
+    connect_level(ctx)
     end_to_end(ctx)
 
 
@@ -749,7 +824,9 @@ META = {
               "verifies; completion (NEWKEYS) implies that verification succeeded, for EVERY exchange of a connection "
               "(first and re-exchanges, behind run()'s _expected_packet gate, any packet history); session_id = first H after any "
               "number of exchanges and is never changed by later traces; the hash input is injective in every field; "
-              "an altered host key / f / signature makes the client raise before NEWKEYS. Tied to the real engines by "
+              "an altered host key / f / signature makes the client raise before NEWKEYS; Transport.connect(hostkey=k) "
+              "raises whenever the key shown differs from k (unless GSS-API kex was requested), independently of "
+              "which credentials were passed, and authenticates/returns only if the pin holds. Tied to the real engines by "
               "exact comparison of every transport call and every hashed byte string, every engine class, both roles, "
               "including a peer's point in its alternative valid encoding: the hash covers the octets AS RECEIVED (also "
               "checked with real cryptography and compressed SEC1 points on all three curves)."),
